@@ -1,6 +1,7 @@
 package chain
 
 import (
+	"bytes"
 	"crypto/ecdsa"
 	"crypto/sha256"
 	"encoding/binary"
@@ -350,6 +351,10 @@ func (w *World) materialise(it Intent, h int64, idx int, sc *blockScratch) *TxPl
 		if it.To != "" && okTo {
 			toB = to.Bytes()
 		}
+		if it.IDHex != nil {
+			id, _ = hex.DecodeString(*it.IDHex)
+			p.StakeSeq = -1
+		}
 		tx = web3.NewTrxUnstaking(fromB, toB, nonce, gas, gp, id)
 	case "withdraw":
 		tx = web3.NewTrxWithdraw(fromB, fromB, nonce, gas, gp, u256(amt))
@@ -374,6 +379,9 @@ func (w *World) materialise(it Intent, h int64, idx int, sc *blockScratch) *TxPl
 		} else {
 			id = make([]byte, 32)
 			id[31] = byte(it.Prop)
+		}
+		if it.IDHex != nil {
+			id, _ = hex.DecodeString(*it.IDHex)
 		}
 		tx = web3.NewTrxVoting(fromB, zero, nonce, gas, gp, id, it.Choice)
 	case "setdoc":
@@ -599,6 +607,23 @@ func (w *World) applyMutation(p *TxPlan, tx *rtypes.Trx, mu *Mutation, act *Acto
 			p.Tampered = true
 		case "empty":
 			sig = nil
+			p.Tampered = true
+		case "reuse":
+			// the (public) signature of an earlier genuine tx of the same sender on this different tx
+			sig = nil
+			for i := len(w.History) - 1; i >= 0 && sig == nil; i-- {
+				old := &rtypes.Trx{}
+				if old.Decode(w.History[i]) == nil && ToAddr(old.From) == act.Addr && len(old.Sig) == 65 && !bytes.Equal(old.Sig, tx.Sig) {
+					if _, ok := verifySig(old, w.M.ChainID); ok {
+						sig = append([]byte(nil), old.Sig...)
+					}
+				}
+			}
+			if sig == nil {
+				other := w.Actors[(act.Idx+1)%len(w.Actors)]
+				w.signTx(tx, other, w.M.ChainID)
+				sig = tx.Sig
+			}
 			p.Tampered = true
 		}
 		tx.Sig = rbytes.HexBytes(sig)
